@@ -93,15 +93,15 @@ XRUN_GRAPH = {'suite': 'graph', 'claim': 'two-pass verdict / gas / returned muta
               'post-state reads == per-key overlay (deletions, key carry, extern); computed mutations observed; cyclic / malformed graphs rejected; both values of collect_all_failures',
               'bound': 'every edge set (incl. self loops) over <= 3 nodes and every 7th over 4 nodes (thorough: all 65536), plus a multi-edge variant, two leaf encodings, a post-state reader / failing / '
                        'unsatisfied program at each node in turn; 4-key ranges x 16 mutation masks x deletion / pre-state masks x 4 start keys (carry, end of key space) x own / extern; '
-                       'computed-mutation cases incl. pushed words that look like post-read opcodes and nodes sharing a program; declared / computed slot collisions in both orders and across three solutions in every order; sampled beyond the exhaustive scope: 6 000 (thorough 20 000) random sets of 1-3 solutions with 5-9-node graphs, 2 000 (6 000) ranges of 5-75 keys; concatenations at the stack / memory limits'}
+                       'computed-mutation cases incl. pushed words that look like post-read opcodes and nodes sharing a program; declared / computed slot collisions in both orders and across three solutions in every order; sampled beyond the exhaustive scope: 6 000 (thorough 20 000) random sets of 1-3 solutions with 5-9-node graphs, 2 000 (6 000) ranges of 5-75 keys; concatenations at the stack / memory limits; fan-out / fan-in levels of 17..257 nodes with an unsatisfied leaf at the first / middle / last positions; data-output leaves with empty / freed / zero-mutation / truncated memories; sets of 4..64 solutions with declared and computed mutations of two contracts and a reader at the first / middle / last position; post-state readers behind 0..7300 Push / Pop rounds, a skipped Halt, an untaken HaltIf / PanicIf, a compute section'}
 XRUN_COMPUTE = {'suite': 'compute', 'claim': 'Compute(n) on the real VM == sequential fork / join written from the statement of C10 (children run one after another on the real VM): child start state, '
                 'joined memory in index order, parent stack, resume position, halt, gas, and every failure condition (child error, breadth < 1, nested Compute, combined memory above the limit)',
                 'bound': '5 parent states (incl. 9941- and 10240-word memories) x 15 child bodies (index-dependent allocation / jumps / halts / errors, parent-memory reads, inherited-stack edits, nested compute) '
-                         'x breadths {1, 2, 3, 0, -1, 40} x 3 suffixes x with / without ComputeEnd; 20 child bodies and breadths up to 257 in the current suite (DESIGN 7.3)'}
+                         'x breadths {1, 2, 3, 0, -1, 40} x 3 suffixes x with / without ComputeEnd; 20 child bodies and breadths up to 257 in the current suite (DESIGN 7.3); breadths 1000 / 1025 / 2049 / 3000 for the index-dependent bodies (only child 1 / 33 / the first three go further); parent stacks of 4095 words; children that leave the textual Compute .. ComputeEnd range and read the parent memory afterwards'}
 XRUN_BYTECODE = {'suite': 'bytecode', 'claim': 'BytecodeMapped (borrowed and owned) == parsed op list: success / error kind, ops(), op(i) for i <= len + 2 (None past the end, no panic), rebuild from ops; '
                  'exec_bytecode == exec_ops (result, gas, pc, stack, memory, halt, repeat) from pc 0 and from pcs at / past the end',
                  'bound': 'all byte strings of length <= 1, a fifth of length 2 (thorough: all), length 3 over 14 representative bytes, Push with every truncation; every program of <= 3 ops (thorough 4) over a 20-op palette '
-                          '(pushes, stack / alu / pred ops, JumpIf, HaltIf, Halt, Repeat, RepeatEnd, memory ops, Compute, ComputeEnd) x 3 initial stacks, gas limit 300; 40 000 (120 000) random programs of 4-12 ops; mappings with 300 pushes / 70 000 ops / a Push after 65 600 ops, rebuilt and push_op-extended mappings'}
+                          '(pushes, stack / alu / pred ops, JumpIf, HaltIf, Halt, Repeat, RepeatEnd, memory ops, Compute, ComputeEnd) x 3 initial stacks, gas limit 300; 40 000 (120 000) random programs of 4-12 ops; mappings with 300 pushes / 70 000 ops / a Push after 65 600 ops, rebuilt and push_op-extended mappings; a Push at byte offsets b-9..b of programs around b = 1 KiB .. 128 KiB, total lengths that are exact multiples of those sizes, each mapped (borrowed / owned), rebuilt from ops, read by op(i), and iterated with skip / nth / step_by / count / last / size_hint'}
 XRUN_VMOPS = {'suite': 'vmops', 'claim': 'every synchronous VM operation == executable twin of the specification functions (asm.yml): whole resulting stack and memory, control flow, failure exactly when documented, '
               'stack / memory limits, no panic; state-read routing and memory layout (incl. states returning more values than asked); repeat trip counts; eval; gas sums, limits and out-of-gas before execution; SHA-256 marshalling; EqSet',
               'bound': '41 ops x all operand pairs from 17 boundary words (0, +-1.., 63, 64, 4095, 4096, i64::MIN/MAX..) x 4 stack bases x 3 memories; 3-operand ops over 8 words; range ops over all arrays of <= 3 words from {0,1,7} with '
@@ -119,7 +119,7 @@ XRUN_HASH = {'suite': 'hash', 'claim': 'contract / solution-set / predicate / pr
                                'contracts / sets of <= 3 members drawn with repetition from 3; program lengths around the SHA block size; 400 (3 000) random address sequences of 4-17 members, every fourth of 31..1025 members (around powers of two), through the iterator and the slice entry points'}
 XRUN_EFFECTS = {'suite': 'effects', 'claim': 'analyze(ops) == union of the effect flags of the ops; bytes_contains_any(to_bytes(ops), set) == (some op - never an immediate byte of a Push - has an effect in the set)',
                 'bound': 'every program of <= 2 ops (a third of those with 3; thorough: all) over 64 ops: the 6 effectful ops, Pop, pushes carrying every effect opcode and the Push opcode at each of the 8 immediate positions; '
-                         'all 64 effect sets for <= 2 ops, 17 sets for 3; k in {0,1,5,6,7,8,12,40} repetitions of one effectful op followed by another; all 720 orders of the six effectful ops; a Push carrying an effect opcode after n single-byte ops for every n <= 1100 and around 4 096 / 8 192 / 10 000 / 16 384 / 20 000 / 65 536 bytes; 1 200 Push / Pop rounds; raw byte strings of <= 3 bytes over a 10-byte alphabet and truncated pushes (no panic, same rule)'}
+                         'all 64 effect sets for <= 2 ops, 17 sets for 3; k in {0,1,5,6,7,8,12,40} repetitions of one effectful op followed by another; Halt / HaltIf / PanicIf / JumpIf / ComputeEnd in the palette; all 720 orders of the six effectful ops; a Push carrying an effect opcode after n single-byte ops for every n <= 1100 and around 4 096 / 8 192 / 10 000 / 16 384 / 20 000 / 65 536 bytes; 1 200 Push / Pop rounds; raw byte strings of <= 3 bytes over a 10-byte alphabet and truncated pushes (no panic, same rule)'}
 XRUN_ASM = {'suite': 'asm', 'claim': 'to_bytes(seq) == concatenation of the single-op encodings, from_bytes of it == seq, parsing any byte string fails exactly at an invalid opcode / truncated immediate and '
                         'otherwise yields ops that serialise to exactly those bytes; the byte iterators give the same bytes when finished by fold / for_each / count / last / collect after k calls of next()',
             'bound': 'all ordered pairs of the 61 immediate-free ops + 9 boundary pushes; a Push at every byte offset 0..3000 of a stream (thorough 9000); runs of 260 pushes shifted by 0..8 bytes; 3000 random sequences of <= 400 ops '
@@ -153,7 +153,7 @@ PROPS = {
     'C01': {'level': 'other', 'verus_units': ['check_core'], 'xrun': [XRUN_GRAPH],
             'technique': 'contract-based deductive verification (Verus) of the graph-layer functions; the orchestration (rayon / closures) only by a bounded stand-in: xrun small-scope execution of the real two-pass entry point against the reference semantics',
             'explanation': 'graph layer only: malformed graphs rejected (create_parent_map Ok <==> graph_ok), helpers panic-free on every graph; orchestration not covered'},
-    'C03': {'level': 'other', 'verus_units': ['check_core', 'vm_core'], 'xrun': [XRUN_GRAPH], 'kani': [KANI_NEXT_KEY],
+    'C03': {'level': 'other', 'verus_units': ['check_core', 'vm_core'], 'xrun': [XRUN_GRAPH, XRUN_EFFECTS], 'kani': [KANI_NEXT_KEY],
             'technique': 'contract-based deductive verification (Verus) of routing, overlay and deferral closure; next_key, post-state construction and pass sequencing by bounded stand-ins (Kani, xrun small-scope execution against the reference semantics)',
             'explanation': 'state-read routing (vm_core), overlay fallback for contracts without mutations, key successor (bounded), deferral helpers panic-free; two-pass sequencing not covered'},
     'C13': {'level': 'proof', 'verus_units': ['asm_core'], 'extra': [extras.asm_table], 'kani': [KANI_WORD_BYTES, KANI_ASM_CODEC], 'xrun': [XRUN_ASM],
